@@ -106,6 +106,7 @@ def run(ctx, rep):
         cases.append(c)
     cases = cases if ctx.deep else cases[::2] + cases[:120]
     cases += [sessgen.rand_history(rng, v3=True) for _ in range(ctx.n(500, 6000))]
+    cases += sessgen.late_hs_histories(rng, ctx.n(60, 1200))          # handshake replies arriving after the read timeout
     mo = ctx.model.batch([sess.model_case(*c) for c in cases])
     for c, (st, outs) in zip(cases, mo):
         im = sess.run_impl(ctx.model, rng, *c)
@@ -115,6 +116,9 @@ def run(ctx, rep):
             diff = [n for n, x, y in zip(("now", "lan", "outcomes", "events"), im, md) if x != y]
             rep.fail("corr", "session:" + ",".join(diff), case_dict(c), {"impl": im, "model": md})
         check_trace(rep, c, im[3], im[2], sess.run_impl.last_opinfo, sess.run_impl.last_event_times)
+        # the same discipline judged from the appliance's side: the key of the latest handshake IT answered on that connection
+        for klass, detail in sess.device_key_discipline(c, im[3], sess.run_impl.last_event_times):
+            rep.fail("oracle", klass, case_dict(c), detail)
     rep.sample({"ops": cases[5][3], "events": "see correspondence"})
     # ---- a long session: counters wrap at 4096 again and again; authentication expires in between -----------------
     n = ctx.n(5000, 70000)
